@@ -1,10 +1,10 @@
 (* C09 -- SASL delivers the exact credential, fails closed and never logs secrets.
    Only statements here; proofs live in Proofs/SaslProofs.v (chunking, PLAIN),
-   Proofs/Base64Lemmas.v (RFC 4648).  The model (Model/Sasl.v, Lib/Base64.v) mirrors
+   Proofs/Base64Lemmas.v (RFC 4648), Proofs/SaslFailClosed.v, Proofs/SaslLogProofs.v.  The model (Model/Sasl.v, Lib/Base64.v) mirrors
    cap_sasl.go, the sasl part of handleCAP, registerBuiltins' routing, execLoop's ERROR
    exit, the credential writes of internalConnect / Cmd.Oper and the Sensitive/Echo gates
    of the loggers; Spec/SaslSpec.v is the property's own reading of "chunks". *)
-Require Import Bytes Utf8 Base64 Sasl SaslSpec Base64Lemmas SaslProofs.
+Require Import Bytes Utf8 Base64 Sasl SaslSpec Base64Lemmas SaslProofs SaslFailClosed SaslLogProofs.
 
 (* ---- chunking ------------------------------------------------------------------ *)
 
@@ -78,3 +78,120 @@ Theorem C09_plain_delivered : forall u p, bytes_ok u -> bytes_ok p ->
     base64_decode resp = Some (u ++ 0 :: u ++ 0 :: p).
 Proof. exact plain_delivered. Qed.
 Print Assumptions C09_plain_delivered.
+
+(* ---- fail-closed ------------------------------------------------------------------
+   m is ANY mechanism (any method name, any function from challenge parameters to a
+   response), c any configuration using it with tracking on.  Histories range over the
+   alphabet AUTHENTICATE, 900-908 (in_alphabet); the theorems hold from every negotiation
+   state ns whose Connect has not returned, in particular from the state reached when
+   CAP ACK started the authentication (C09_ack_starts_authentication). *)
+
+(* what one event elicits, exactly as the code behaves (Spec/SaslSpec.v step_spec):
+   900/901/907 nothing; 903 CAP END; 902/904/905/906/908 the ERROR that ends Connect;
+   AUTHENTICATE the chunked response, or the ERROR when the mechanism returns "" *)
+Theorem C09_step : forall m c, cfg_sasl c = Some m -> cfg_tracking c = true ->
+  forall ns e, in_alphabet e ->
+  exists cn' outs, feed c (mkConn ns None) e = Ok (cn', outs) /\ step_spec m ns e cn' outs.
+Proof. exact feed_step. Qed.
+Print Assumptions C09_step.
+
+(* CAP END is written only after 903: everything written in answer to a 903-free prefix of
+   a history is an AUTHENTICATE line (the rest h2 of the history is arbitrary) *)
+Theorem C09_fail_closed_no_cap_end : forall m c, cfg_sasl c = Some m -> cfg_tracking c = true ->
+  forall h1 h2 cn cn' outs,
+  Forall in_alphabet h1 -> Forall (fun e => ev_cmd e <> n903) h1 ->
+  run c cn (h1 ++ h2) = Ok (cn', outs) ->
+  exists cn1 o1 o2,
+    run c cn h1 = Ok (cn1, o1) /\ run c cn1 h2 = Ok (cn', o2) /\ outs = o1 ++ o2 /\
+    Forall (fun w => ev_cmd w = c_AUTHENTICATE) (writes_of o1) /\ ~ In cap_end (writes_of o1).
+Proof. exact no_cap_end_before_success. Qed.
+Print Assumptions C09_fail_closed_no_cap_end.
+
+(* the first failure numeric, or the first challenge the mechanism answers with "",
+   makes Connect return the ErrEvent; the event elicits no write and nothing whatsoever is
+   written afterwards, whatever follows (h2 is arbitrary, a later 903 included) *)
+Theorem C09_fail_closed : forall m c, cfg_sasl c = Some m -> cfg_tracking c = true ->
+  forall h1 e h2 ns,
+  Forall in_alphabet h1 -> Forall (fun x => fatalb m x = false) h1 ->
+  in_alphabet e -> fatalb m e = true ->
+  exists o1,
+    run c (mkConn ns None) h1 = Ok (mkConn ns None, o1) /\
+    run c (mkConn ns None) (h1 ++ e :: h2) =
+      Ok (mkConn ns (Some (fatal_text m e)), o1 ++ [InjectError (fatal_text m e)]).
+Proof. exact fails_closed. Qed.
+Print Assumptions C09_fail_closed.
+
+(* ... and Connect returns an error in no other case *)
+Theorem C09_error_iff_fatal : forall m c, cfg_sasl c = Some m -> cfg_tracking c = true ->
+  forall h ns cn' outs,
+  Forall in_alphabet h -> run c (mkConn ns None) h = Ok (cn', outs) ->
+  (cn_returned cn' <> None <-> Exists (fun e => fatalb m e = true) h).
+Proof. exact returned_iff_fatal. Qed.
+Print Assumptions C09_error_iff_fatal.
+
+Theorem C09_success : forall m c, cfg_sasl c = Some m -> cfg_tracking c = true ->
+  forall ns e, in_alphabet e -> ev_cmd e = n903 ->
+  feed c (mkConn ns None) e = Ok (mkConn ns None, [Write cap_end]).
+Proof. exact success_ends_negotiation. Qed.
+Print Assumptions C09_success.
+
+Theorem C09_ack_starts_authentication : forall m c, cfg_sasl c = Some m -> cfg_tracking c = true ->
+  forall ns pfx target e_echo, e_echo = false ->
+  feed c (mkConn ns None) (mkEv pfx c_CAP [target; c_ACK; c_sasl] false e_echo) =
+    Ok (mkConn (mkNs false true) None, [Write (plain_ev c_AUTHENTICATE [mech_method m])]).
+Proof. exact ack_starts_authentication. Qed.
+Print Assumptions C09_ack_starts_authentication.
+
+(* no slice in the chunk loop is ever out of range: no history, in or outside the alphabet,
+   with or without a mechanism, makes the model panic *)
+Theorem C09_never_panics : forall c h cn, exists r, run c cn h = Ok r.
+Proof. exact run_total. Qed.
+Print Assumptions C09_never_panics.
+
+(* ---- no secret is logged -------------------------------------------------------------
+   strip_raw (StripRaw) and pretty_rest (Event.Pretty after its Sensitive/Echo/ERROR tests)
+   are arbitrary functions. *)
+
+(* the send-path loggers (debugLogEvent for sent and for dropped events, Pretty -> Out) do
+   not depend on the parameters of a Sensitive event; Out gets nothing at all *)
+Theorem C09_no_secret_logged : forall strip_raw pretty_rest e ps dropped,
+  ev_sensitive e = true ->
+  debug_log strip_raw dropped (with_params e ps) = debug_log strip_raw dropped e /\
+  out_log strip_raw pretty_rest (with_params e ps) = out_log strip_raw pretty_rest e /\
+  out_log strip_raw pretty_rest e = [].
+Proof. exact loggers_ignore_sensitive_params. Qed.
+Print Assumptions C09_no_secret_logged.
+
+(* every event the client builds from a secret is Sensitive *)
+Theorem C09_secret_events_sensitive :
+  (forall pw, ev_sensitive (pass_event pw) = true) /\
+  (forall w, ev_sensitive (webirc_event w) = true) /\
+  (forall u p, ev_sensitive (oper_event u p) = true) /\
+  (forall p, ev_sensitive (chunk_event (Payload p)) = true).
+Proof. exact secret_events_sensitive. Qed.
+Print Assumptions C09_secret_events_sensitive.
+
+(* non-interference, end to end: configurations that differ only in secrets (cfg_low_eq:
+   server password, WEBIRC fields, mechanism responses of equal length) log the same
+   records during registration and during every history of server events (any events,
+   not only the alphabet), and reach the same Connect result *)
+Theorem C09_registration_log_ni : forall strip_raw pretty_rest c1 c2, cfg_low_eq c1 c2 ->
+  registration_log strip_raw pretty_rest c1 = registration_log strip_raw pretty_rest c2.
+Proof. exact registration_log_ni. Qed.
+Print Assumptions C09_registration_log_ni.
+
+Theorem C09_session_log_ni : forall strip_raw pretty_rest c1 c2 h cn, cfg_low_eq c1 c2 ->
+  session_log strip_raw pretty_rest c1 cn h = session_log strip_raw pretty_rest c2 cn h.
+Proof. exact session_log_ni. Qed.
+Print Assumptions C09_session_log_ni.
+
+Theorem C09_run_ni : forall c1 c2 h cn, cfg_low_eq c1 c2 ->
+  exists cn' o1 o2, run c1 cn h = Ok (cn', o1) /\ run c2 cn h = Ok (cn', o2) /\
+    List.map redact_out o1 = List.map redact_out o2.
+Proof. exact run_ni. Qed.
+Print Assumptions C09_run_ni.
+
+Theorem C09_oper_log_constant : forall strip_raw pretty_rest u p u' p',
+  write_log strip_raw pretty_rest (oper_event u p) = write_log strip_raw pretty_rest (oper_event u' p').
+Proof. exact oper_log_constant. Qed.
+Print Assumptions C09_oper_log_constant.
